@@ -575,3 +575,38 @@ def rustc_each(files, tag="each", wrapper=None):
         return errs
     with ThreadPoolExecutor(max_workers=vlib.NPROC) as ex:
         return list(ex.map(one, range(len(files))))
+
+# ------------------------------------------------------------------ the include macro, observed (harness/macroprobe)
+MACROPROBE = os.path.join(vlib.ROOT, "harness", "macroprobe")
+
+def _probe_cargo(args, timeout=900):
+    env = dict(vlib.ENV, CARGO_TARGET_DIR=os.path.join(vlib.CACHE, "macroprobe-target"))
+    return subprocess.run(["cargo", "run", "--offline", "-q"] + args, cwd=MACROPROBE, env=env, text=True,
+                          stdout=subprocess.PIPE, stderr=subprocess.PIPE, timeout=timeout)
+
+def macro_probe():
+    """What `json_shape_build::include_json_shape!(name)` really reads, observed on /repo's current source.
+    Returns {"shadow": {name: path relative to OUT_DIR as '$OUT/...'} or None, "shadow_error": text,
+             "real": True / False / None, "real_error": text, "real_unreadable": [paths rustc could not read]}.
+    shadow: the probe modules shadow `include!`, so the macro's path expression is captured as a string.
+    real  : build.rs runs compile_json per name and each module includes the file through the real macro, the
+            way the documentation shows; it builds iff the macro reads what compile_json wrote (and the module
+            compiles against serde).  Both are built against /repo's working tree on every call."""
+    import re
+    res = {"shadow": None, "shadow_error": None, "real": None, "real_error": None, "real_unreadable": []}
+    p = _probe_cargo([])
+    if p.returncode == 0:
+        sh = {}
+        for l in p.stdout.split("\n"):
+            if "\t" in l:
+                a, b = l.split("\t")
+                sh[bytes.fromhex(a).decode()] = bytes.fromhex(b).decode("utf-8", "replace")
+        res["shadow"] = sh
+    else:
+        res["shadow_error"] = (p.stderr or p.stdout)[-1500:]
+    p = _probe_cargo(["--features", "real"])
+    res["real"] = p.returncode == 0 and "REAL-OK" in p.stdout
+    if not res["real"]:
+        res["real_error"] = (p.stderr or p.stdout)[-3000:]
+        res["real_unreadable"] = re.findall(r"couldn't read `([^`]*)`", p.stderr or "")
+    return res
